@@ -13,7 +13,10 @@ def one(pid):
         shutil.copytree("/repo/src", os.path.join(tmp, "src"))
         r = subprocess.run(["patch", "-p1", "-s", "-i", os.path.join(d, "patch.diff")], cwd=tmp, capture_output=True, text=True)
         if r.returncode != 0:
+            # a seed whose patch no longer applies (the repository moved on, e.g. a fix: commit touched the same lines)
+            # is not claimed as detected until it has been rebased and re-confirmed
             meta["patch_applies_to_current_HEAD"] = False
+            meta["detected_by"] = []
         else:
             meta["patch_applies_to_current_HEAD"] = True
             res = {}
